@@ -1,7 +1,9 @@
 // C20: sweep of the arena size.  usage: c20_arena <model.xml> <lo> <hi> <stride> <batch> [nstep]
 //   mode "measure":  c20_arena <model.xml> measure  -> prints "M <maxuse_arena> <ncon> <nefc> <nisland> <sizeof mjContact>"
+//   modes "auto" / "stages" / "both" / "stagept": see main()
 // For every narena in [lo,hi): m->narena = narena; mj_makeData; nstep x mj_step, each compared with the
-// same step on an ample-memory mjData started from the same integration state.
+// same step on an ample-memory mjData started from the same integration state.  Staged fault points (second fault
+// dimension, see tick_cb / stage_table): memory is ample up to a stage boundary of the first step and narena after it.
 #include <dlfcn.h>
 #include <fcntl.h>
 #include <setjmp.h>
